@@ -2,6 +2,8 @@
 import z3
 
 import families as fam
+import oracle as orc
+from symreal import core as sx
 from harness import routes as rt
 from props import common
 from props.common import prepare  # noqa: F401
@@ -11,6 +13,7 @@ LEVEL_TEXT = ("Bounded symbolic execution of the real Expression.at()/_evaluate(
               "proxies: for each tree of the families below, every path of the evaluator is explored (forks at every "
               "comparison) and on each path z3 decides 'value == denotation' for ALL points of R^k at once "
               "(unsat of PC & axioms & in-domain & value != reference).")
+OPTS = {"quick": {"fp_timeout_ms": 40000, "job_budget_s": 90}, "thorough": {"fp_timeout_ms": 180000, "job_budget_s": 400}}
 BOUNDS = {
     "quick": {"families": "F1 node lemmas over arbitrary-valued children (all 15 constructors, n<=5, bases e/2/0.5/1, symbolic base, "
               "symbolic constant, arity 0..3), DAG sharing, stratified F2 (parent x child kind), bare-number spelling, warm-cache variants",
@@ -19,8 +22,9 @@ BOUNDS = {
                  "F3 unary chains of depth 3, seeded F5 trees of 5-12 nodes, bare-number spelling, warm-cache variants",
                  "variables": "<=4 symbolic coordinates", "outside": "deeper trees, n>7, arity>4, overflow/underflow, rounding size"},
 }
-ASSUMPTIONS = ["Part E (IEEE-level dyadic exactness) is not part of this check: exactness on dyadic inputs follows from exact real equality "
-               "only where each primitive operation is exact on the given inputs"]
+ASSUMPTIONS = ["Part E (dyadic exactness): on the rational fragment the code's operation trace must be the reference trace up to fp-exact identities "
+               "(0+a, 1*a, a/1, commutativity of one + or *); otherwise a QF_FP query (cvc5 on z3's export) searches integer inputs and inputs k/16 with |x|<=1024 on which every reference operation "
+               "is exact but the results differ (60 s, else inconclusive); ** with integer exponent and libm are trusted exact on representable results"]
 
 
 def sym_param_jobs():
@@ -79,11 +83,51 @@ def jobs(tier, seed):
     return js
 
 
+def exactness_vc(spec, ctx, out, idx):
+    """Part E: on small dyadic inputs for which every reference operation is exact, the code's float result is exactly that number"""
+    import fractions
+    from symreal import fpexact as fx
+    from harness.run import VC
+    t = common.val_term(out)
+    if t is None or spec.get("twin") or spec.get("assume"):
+        return None
+    if not (fx.is_rational_fragment(t) and fx.is_rational_fragment(ctx.ref)):
+        return None
+    if fx.key(t) == fx.key(ctx.ref):
+        return VC("dyadic-exactness:identical-float-operation-trace", None, None, {"failed": False})
+    names = sorted(set(ctx.consts.keys()))
+    ref = ctx.ref
+
+    def judge(val, couts):
+        o = couts[idx]
+        if o["kind"] != "value" or o.get("vtype") not in ("float", "int"):
+            return None
+        got = fractions.Fraction(float.fromhex(o["value"])) if o["vtype"] == "float" else fractions.Fraction(int(o["value"]))
+        sub = [(z3.Real(n), sx.Q(fractions.Fraction(float(val[n])))) for n in names]
+        try:
+            ex = z3.simplify(z3.substitute(ref, *sub))
+            exact = fractions.Fraction(ex.numerator_as_long(), ex.denominator_as_long())
+        except Exception:  # noqa
+            return None
+        if got != exact:
+            return f"returned {float(got)!r} but the exact value {exact} is representable and every reference operation is exact on these dyadic inputs"
+        return None
+    v = VC("dyadic-exactness", None, judge, {"code_trace": str(z3.simplify(t))[:200]})
+    pc = list(ctx.eng.pc)
+    tmo = ctx.opts.get("fp_timeout_ms", 20000)
+    v.solve = lambda: fx.find_inexact_witness(t, ref, names, timeout_ms=tmo, pc=pc)
+    return v
+
+
 def vcs(spec, ctx, outs):
     out = outs[-1]
     idx = len(outs) - 1
     if out["kind"] == "value":
-        return [common.eq_value_vc("value==denotation", ctx, out, ctx.ref, ctx.indom, idx, twin=bool(spec.get("twin")))]
+        res = [common.eq_value_vc("value==denotation", ctx, out, ctx.ref, ctx.indom, idx, twin=bool(spec.get("twin")))]
+        e = exactness_vc(spec, ctx, out, idx)
+        if e is not None:
+            res.append(e)
+        return res
     if common.strange(out):
         return [common.kind_vc("no-foreign-outcome-on-domain", ctx, out, z3.Not(ctx.indom), idx)]
     return []
